@@ -142,7 +142,8 @@ def _structure_worker(cells, tier, backends, is_canary):
         dt = Sym(z3.Real("dt"))
         tmo = 30000 if tier == "quick" else 120000
         for be in backends:
-            if be == "jaxley.stone" and max(max(nc) for _, nc in cells) > (2 if tier == "quick" else 3):
+            widest, nbr = max(max(nc) for _, nc in cells), sum(len(nc) for _, nc in cells)
+            if be == "jaxley.stone" and (widest > 3 or (widest == 3 and (tier == "quick" or nbr > 3))):
                 continue        # Stone's LU on wider branches exceeds the solver budget of this tier: assumed there (stated in the evidence)
             Ctx.reset()
             P = sym_params(topo.N)
@@ -244,7 +245,7 @@ def main(tier):
     ck.extra["structures"] = {"count": n_struct, "exhaustive_within_bound": True,
                               "bound": ("all parent vectors with parents[i]<i for <= 4 branches x ncomp in {1,2}; single branches up to 4 compartments; 2 deeper samples; 6 networks of 2-3 cells; 3 unsorted parent vectors"
                                         if tier == "quick" else "trees <= 4 branches x ncomp in {1,2,3}; all 5-branch trees x ncomp in {1,2}; <= 3 branches with a 4-compartment branch; 60 seeded random trees <= 7 branches / <= 4 compartments; all 2- and 3-cell networks over a 6-cell family")}
-    ck.trusted = ["jax.experimental.sparse.linalg.spsolve solves the CSR system it is given", "tridiax.stone_*: its real code runs through the same chain obligations for structures with <= 2 (quick) / <= 3 (thorough) compartments per branch; for wider branches it is ASSUMED to compute the same function as tridiax.thomas_* (which runs through the chain for every structure)",
+    ck.trusted = ["jax.experimental.sparse.linalg.spsolve solves the CSR system it is given", "tridiax.stone_*: its real code runs through the same chain obligations for structures with <= 2 compartments per branch (thorough: also <= 3 compartments when the module has at most 3 branches); for wider branches it is ASSUMED to compute the same function as tridiax.thomas_* (which runs through the chain for every structure)",
                   "jax.numpy/lax/vmap primitive models", "z3 nlsat", "specs/cable.py states the physics",
                   "cited: a strictly diagonally dominant M-matrix system has exactly one solution"]
     ck.assumptions += ["positive radius/length/axial resistivity/capacitance, membrane conductance terms >= 0, dt > 0; all REAL values (proved), static structure enumerated (bounded)",
